@@ -142,6 +142,9 @@ fn real_main() -> i32 {
                 }
                 let mut d = verif::util::Dec::new(&bytes);
                 let mut gcfg = verif::gen::build::GenCfg::full(nodes);
+                if args.iter().any(|a| a == "--hostile") {
+                    gcfg.hostile_names = true;
+                }
                 if args.iter().any(|a| a == "--traits") {
                     gcfg.traits = true;
                     gcfg.focus = verif::gen::build::Focus::Traits;
